@@ -2,8 +2,7 @@
    Property theorems only (each closed by [exact <lemma>], followed by Print Assumptions).
    Part A (stdlib): combinatorics on coq/Geom/GeomModel.v, GeomFile.v, MeshTopo.v.
    Part B (MathComp): algebra of relabelling the unknowns and of the common reference.
-   Not a theorem: the size of the analytic-inner / quadrature-outer asymmetry (measured, calib/C06.json), and the
-   equivariance of a change of mesh order (tied by the implementation runs only). *)
+   Not a theorem: the size of the analytic-inner / quadrature-outer asymmetry (measured, calib/C06.json). *)
 From OM Require Import Base.Lists Base.Ops Geom.MeshTopo Geom.GeomModel Geom.GeomProofs Geom.GeomFile Geom.GeomFileProofs
   Geom.MeshTopoProofs Geom.Equivariance.
 From Coq Require Import Permutation.
@@ -35,6 +34,35 @@ Proof.
   - intros x y Hx Hy. eapply induced_inj; eauto.
 Qed.
 Print Assumptions unknown_indices_related_by_induced_permutation.
+
+(* --- A1'. declaring the meshes in another order: same point set; an imported triangle joins the points of its own
+   file whatever the position of its mesh; everything derived from the domains follows the renumbering *)
+Theorem reorder_meshes_equivariant :
+  (forall ms ms' t ims t' ims', Permutation ms ms' ->
+     import_points [] ms = (t, ims) -> import_points [] ms' = (t', ims') -> Permutation t t' /\ length t' = length t)
+  /\ (forall ms t ims k lts, import_points [] ms = (t, ims) -> (k < length ms)%nat ->
+       map_tris (nth k ims []) (m_tris (nth k ms (mkMesh [] []))) = Some lts ->
+       map (tri_points t) lts = map (tri_points (m_pts (nth k ms (mkMesh [] [])))) (m_tris (nth k ms (mkMesh [] []))))
+  /\ (forall (pi : nat -> nat), (forall a b, pi a = pi b -> a = b) -> forall g g',
+       g_doms g' = map (map (ren_gb pi)) (g_doms g) ->
+       (forall m, domains_of g' (pi m) = domains_of g m)
+       /\ (forall m1 m2, common_domains g' (pi m1) (pi m2) = common_domains g m1 m2)
+       /\ (forall m1 m2, relative_orientation g' (pi m1) (pi m2) = relative_orientation g m1 m2)
+       /\ (forall ins, domain_of_point g' ins = domain_of_point g ins)
+       /\ (forall (F : Type) (o : Ops F) conds m1 m2,
+             sigma o g' conds (pi m1) (pi m2) = sigma o g conds m1 m2
+             /\ sigma_inv o g' conds (pi m1) (pi m2) = sigma_inv o g conds m1 m2
+             /\ indicator o g' conds (pi m1) (pi m2) = indicator o g conds m1 m2)).
+Proof.
+  split; [exact import_points_order_free|]. split; [exact imported_triangles_label_free|].
+  intros pi Hpi g g' Hd. split; [|split; [|split; [|split]]].
+  - intros m. apply (domains_of_ren pi Hpi g g' Hd).
+  - intros m1 m2. apply (common_domains_ren pi Hpi g g' Hd).
+  - intros m1 m2. apply (relative_orientation_ren pi Hpi g g' Hd).
+  - intros ins. apply (domain_of_point_ren pi g g' Hd).
+  - intros F o conds m1 m2. repeat split; apply (eval_common_ren pi Hpi g g' Hd).
+Qed.
+Print Assumptions reorder_meshes_equivariant.
 
 (* --- A2. listing a domain's boundaries in another order *)
 Theorem reorder_domain_boundaries_equivariant : forall g g', same_up_to_boundary_order g g' ->
